@@ -313,15 +313,18 @@ def ctor_check(ST):
                 for i0 in range(-1, 5):
                     for mode in range(-1, 9):
                         rej = M <= 0 or m <= 0 or m > M or s >= M or i0 >= M or mode not in (0, 2, 4, 6)
+                        other = None
                         try:
                             ST(str.isupper, m, M, s, i0, 0, mode)
                             got = False
                         except ValueError:
                             got = True
+                        except Exception as e:  # noqa   (rejected, but not "with ValueError")
+                            got, other = None, type(e).__name__
                         if got != rej:
                             return {"kind": "tokenizer-ctor", "args": [m, M, s, i0, 0, mode],
                                     "expected": "ValueError" if rej else "accepted",
-                                    "observed": "ValueError" if got else "accepted"}
+                                    "observed": other or ("ValueError" if got else "accepted")}
     return None
 
 
@@ -785,6 +788,8 @@ def replay(w):
             got = "accepted"
         except ValueError:
             got = "ValueError"
+        except Exception as e:  # noqa
+            got = type(e).__name__
         print("StreamTokenizer(str.isupper, %s): expected %s, observed %s" % (
             ", ".join(map(str, w["args"])), w["expected"], got))
         return 1 if got != w["expected"] else 0
